@@ -122,6 +122,8 @@ def build(recipe):
             dh, dw = L.get("dil", [1, 1])
             pad = L.get("pad", "SAME")
             _, H, W, C = x["shape"]
+            if pad == "VALID" and op != "TRANSPOSE_CONV" and ((kh - 1) * dh + 1 > H or (kw - 1) * dw + 1 > W):
+                raise ValueError("conv window larger than input")
             wdt = L.get("wdtype", "uint8" if x["dtype"] == "uint8" else "int8")
             if op == "CONV_2D":
                 oc = L["oc"]
@@ -178,6 +180,8 @@ def build(recipe):
                 add_op(BO[op], [x["t"], wt] + ([bias_t] if bias_t >= 0 else []), [y["t"]], opt, version=3)
         elif op == "FULLY_CONNECTED":
             oc = L["oc"]
+            if len(x["shape"]) < 2:
+                raise ValueError("FC rank")
             n_in = int(np.prod(x["shape"][1:])) if L.get("flatten", True) else x["shape"][-1]
             wdt = "uint8" if x["dtype"] == "uint8" else "int8"
             wdata = _weights(rs, [oc, n_in], L.get("wstyle", "uniform"), wdt)
@@ -198,12 +202,15 @@ def build(recipe):
             sh, sw = L.get("stride", [1, 1])
             pad = L.get("pad", "VALID")
             _, H, W, C = x["shape"]
+            if pad == "VALID" and (kh > H or kw > W):
+                raise ValueError("pool window larger than input")
             y = new_value(nm, [1, conv_out(H, kh, sh, 1, pad), conv_out(W, kw, sw, 1, pad), C], x["dtype"], oq)
             add_op(BO[op], [x["t"]], [y["t"]], ("Pool2DOptions", {"Padding": 0 if pad == "SAME" else 1, "StrideW": sw, "StrideH": sh,
                                                                    "FilterWidth": kw, "FilterHeight": kh,
                                                                    "FusedActivationFunction": act}), version=2)
         elif op in ("ADD", "SUB", "MUL", "MINIMUM", "MAXIMUM"):
             if len(ins) == 2:
+                np.broadcast_shapes(tuple(ins[0]["shape"]), tuple(ins[1]["shape"]))
                 b = ins[1]
                 bt = b["t"]
                 bshape = b["shape"]
@@ -239,6 +246,8 @@ def build(recipe):
             add_op(BO[op], [x["t"]], [y["t"]], ("SoftmaxOptions", {"Beta": f32(L.get("beta", 1.0))}))
         elif op == "RESHAPE":
             shp = L["shape"]
+            if int(np.prod(shp)) != int(np.prod(x["shape"])):
+                raise ValueError("RESHAPE element count mismatch")
             st = add_tensor(nm + "_shape", [len(shp)], "int32", None, np.array(shp, np.int32))
             y = new_value(nm, shp, x["dtype"], x["q"])
             add_op(BO[op], [x["t"], st], [y["t"]], ("ReshapeOptions", {"NewShape": np.array(shp, np.int32)}))
@@ -253,6 +262,8 @@ def build(recipe):
         elif op == "CONCATENATION":
             ax = L["axis"]
             shp = list(x["shape"])
+            if any(len(v["shape"]) != len(shp) or any(v["shape"][d] != shp[d] for d in range(len(shp)) if d != ax) for v in ins):
+                raise ValueError("CONCATENATION shape mismatch")
             shp[ax] = sum(v["shape"][ax] for v in ins)
             y = new_value(nm, shp, x["dtype"], oq)
             add_op(BO[op], [v["t"] for v in ins], [y["t"]], ("ConcatenationOptions", {"Axis": ax, "FusedActivationFunction": act}))
@@ -271,6 +282,8 @@ def build(recipe):
             add_op(BO[op], [x["t"], at], [y["t"]], ("ReducerOptions", {"KeepDims": keep}))
         elif op in ("RESIZE_BILINEAR", "RESIZE_NEAREST_NEIGHBOR"):
             oh, ow = L["size"]
+            if len(x["shape"]) != 4:
+                raise ValueError("resize rank")
             st = add_tensor(nm + "_size", [2], "int32", None, np.array([oh, ow], np.int32))
             y = new_value(nm, [1, oh, ow, x["shape"][3]], x["dtype"], x["q"] if not L.get("q") else oq)
             optn = "ResizeBilinearOptions" if op == "RESIZE_BILINEAR" else "ResizeNearestNeighborOptions"
@@ -278,6 +291,8 @@ def build(recipe):
                                                             "HalfPixelCenters": L.get("half_pixel", False)}), version=3)
         elif op == "SPLIT":
             ax, n = L["axis"], L["n"]
+            if x["shape"][ax] % n or x["shape"][ax] < n:
+                raise ValueError("SPLIT not divisible")
             at = add_tensor(nm + "_axis", [], "int32", None, np.array([ax], np.int32))
             shp = list(x["shape"])
             shp[ax] //= n
@@ -285,6 +300,8 @@ def build(recipe):
             add_op(BO[op], [at, x["t"]], [o["t"] for o in outs], ("SplitOptions", {"NumSplits": n}))
         elif op == "STRIDED_SLICE":
             begin, end = L["begin"], L["end"]
+            if len(begin) != len(x["shape"]) or any(not (0 <= b < e <= s_) for b, e, s_ in zip(begin, end, x["shape"])):
+                raise ValueError("STRIDED_SLICE out of range")
             r = len(begin)
             bt_ = add_tensor(nm + "_begin", [r], "int32", None, np.array(begin, np.int32))
             et = add_tensor(nm + "_end", [r], "int32", None, np.array(end, np.int32))
@@ -295,6 +312,8 @@ def build(recipe):
                                                                                       "NewAxisMask": 0, "ShrinkAxisMask": 0}))
         elif op == "SLICE":
             begin, size = L["begin"], L["size"]
+            if any(not (0 <= b and b + z <= s_ and z > 0) for b, z, s_ in zip(begin, size, x["shape"])):
+                raise ValueError("SLICE out of range")
             r = len(begin)
             bt_ = add_tensor(nm + "_begin", [r], "int32", None, np.array(begin, np.int32))
             szt = add_tensor(nm + "_size", [r], "int32", None, np.array(size, np.int32))
@@ -312,6 +331,8 @@ def build(recipe):
                    custom_options=bytes(L.get("options", [1, 2, 3, 4])))
         elif op == "GATHER":
             idx = L["indices"]
+            if any(not (0 <= i_ < x["shape"][L["axis"]]) for i_ in idx):
+                raise ValueError("GATHER index out of range")
             it = add_tensor(nm + "_idx", [len(idx)], "int32", None, np.array(idx, np.int32))
             shp = list(x["shape"])
             shp[L["axis"]] = len(idx)
